@@ -29,12 +29,14 @@ Inductive op :=
 | OLock              (* accessor.lock()  *)
 | OUnlock            (* accessor.unlock()  (skipped by the client when it holds no lock) *)
 | OStart             (* gc.start() *)
-| OStop.             (* gc.stop()  (the destructor is exactly this call) *)
+| OStop              (* gc.stop()  (the destructor is exactly this call) *)
+| OWait.             (* client-side barrier: wait until every other client thread has finished its program *)
 
 Record task := { tk_id : tid; tk_epoch : Z; tk_blk : list (nat * nat); tk_ticket : nat }.
 
 Inductive res :=
 | RRetire (ticket : nat) | RLock | RUnlock | RSkip | RStart (spawned : bool)
+| RWait
 | RStop (joined : bool) (ticket : nat) (ncalls : nat).   (* ncalls: reclaimer calls made when stop() returned *)
 
 Inductive pc :=
@@ -217,6 +219,14 @@ Definition step_coll (s : st) : option st :=
   end.
 
 (* ---- client threads *)
+Definition thread_done (th : thread) : bool :=
+  match tpc th, nth_error (prog th) (opi th) with Idle, None => true | _, _ => false end.
+Fixpoint others_done (t : nat) (i : nat) (l : list thread) : bool :=
+  match l with
+  | [] => true
+  | th :: r => (Nat.eqb i t || thread_done th) && others_done t (S i) r
+  end.
+
 Definition take_ticket (s : st) : st := with_qall s (qall s ++ [None]).
 
 Definition step_thread (s : st) (t : nat) (th : thread) : option st :=
@@ -259,6 +269,7 @@ Definition step_thread (s : st) (t : nat) (th : thread) : option st :=
         let k := length (qall s) in
         Some (upd_thread (take_ticket s) t (goto th (PPublish (stop_task (t, opi th) k) true)))
       else Some (upd_thread s t (finish_op th (RStop false 0 (length (calls s)))))
+    | Some OWait => if others_done t 0 (threads s) then Some (upd_thread s t (finish_op th RWait)) else None
     end
   | PTicket e blk =>
     let k := length (qall s) in
@@ -302,8 +313,6 @@ Definition fixed_kc (running : bool) (index size : nat) : bool := running || Nat
 Definition step_fixed : st -> nat -> option st := gstep fixed_kc.
 
 (* ---- observation *)
-Definition thread_done (th : thread) : bool :=
-  match tpc th, nth_error (prog th) (opi th) with Idle, None => true | _, _ => false end.
 Definition all_done (s : st) : bool := forallb thread_done (threads s).
 Definition coll_quiet (s : st) : bool := match cp (col s) with CNotStarted | CExited => true | _ => false end.
 
